@@ -1106,6 +1106,183 @@ def job_table(seed):
     return obs
 
 
+def job_imc_matrix(seed):
+    """imcio_write_matrix against imcio_read_matrix: the matrix (or, with an index list, the selected sub-matrix) written line by line is the matrix read back.
+    Both functions are executed from the AST; Eigen::Map enters by its contract (storage order of the mapped type)."""
+    rvc.reset()
+    fns = rvc.functions(rvc.ast('csg/src/libcsg/imcio.cc', 'imcio_'))
+    for need in ('imcio_write_matrix', 'imcio_read_matrix'):
+        if need not in fns:
+            raise core.Undecided('front end: %s not found' % need)
+    fw, fr = fns['imcio_write_matrix'][0], fns['imcio_read_matrix'][0]
+    mfs = [{'name': 'imcio_write_matrix', 'file': 'csg/src/libcsg/imcio.cc', 'ast_nodes': rvc.node_count(fw)}, {'name': 'imcio_read_matrix', 'file': 'csg/src/libcsg/imcio.cc', 'ast_nodes': rvc.node_count(fr)}]
+    obs = []
+    MAN = ('manip',)
+    for (r, c, sel) in ((2, 3, None), (3, 2, None), (3, 3, [0, 2]), (3, 3, [2, 0])):
+        A = Mx.sym('a', r, c)
+        cur, closed = [], [False]
+        def wr(v):
+            if not closed[0]:
+                cur.append(v)
+        cb = {'ostream_write': wr, 'decl': lambda ex_, vd, ty, inner: ('ostream' if 'ofstream' in ty else NotImplemented), 'open': lambda *a: None, 'close': lambda *a: closed.__setitem__(0, True),
+              'setprecision': lambda *a: MAN, 'stream_fail': lambda st: False, 'global': lambda nm: MAN}
+        ex = Exec({'file': 'F', 'gmc': A, 'list': (list(sel) if sel is not None else None)}, cb, {}, None)
+        try:
+            ex.stmt(rvc.body_of(fw))
+        except Ret:
+            pass
+        lines, l = [], []
+        for v in cur:
+            if v == 'ostream':
+                lines.append(l); l = []
+            elif v is MAN or (isinstance(v, str) and v.strip() == ''):
+                continue
+            else:
+                l.append(v)
+        want = A if sel is None else Mx(len(sel), len(sel), [[A.g(i, j) for j in sel] for i in sel])
+        tag = '%dx%d%s' % (r, c, '' if sel is None else '.sel' + ''.join(map(str, sel)))
+        bound = '%d x %d matrix%s' % (r, c, '' if sel is None else ', index list %s' % sel)
+        ok = len(lines) == want.r and all(len(x) == want.c for x in lines) and not l
+        ob(obs, 'C08.imc.matrix/%s/lines' % tag, 'imcio_write_matrix', 'one line per (selected) row holding its (selected) entries in order', ok, str(lines)[:300], bound=bound, fns=mfs)
+        if not ok:
+            continue
+        val, text = {}, ['# comment']
+        for i, x in enumerate(lines):
+            names = []
+            for j, t in enumerate(x):
+                val['t%d_%d' % (i, j)] = D.lift(t).v
+                names.append('t%d_%d' % (i, j))
+            text.append(' '.join(names))
+        pos = [0]
+        def getline(stream, line):
+            if pos[0] >= len(text):
+                return False
+            line.set(text[pos[0]]); pos[0] += 1
+            return True
+        getline.by_ref = True
+        def construct(ex_, n, ty, args):
+            full = ty + ' ' + n['type'].get('desugaredQualType', '')
+            if 'Map<' in full:
+                a = [rvc.rval(ex_.expr(x)) for x in args]
+                data, rr, cc = a[0], rvc._i(a[1]), rvc._i(a[2])
+                rowmajor = 'RowMajor' in full or re.search(r'Matrix<double, -1, -1, 1', full) is not None
+                if rr * cc != len(data):
+                    raise rvc.Unsupported('Eigen::Map over %d values with shape %dx%d' % (len(data), rr, cc))
+                return Mx(rr, cc, [[D.lift(data[i * cc + j] if rowmajor else data[i + j * rr]) for j in range(cc)] for i in range(rr)])
+            return NotImplemented
+        def rdecl(ex_, vd, ty, inner):
+            if 'ifstream' in ty:
+                return {'__class__': 'ifstream'}
+            if 'Tokenizer' in ty:
+                line = rvc.rval(ex_.expr(inner[0]['inner'][0]))
+                return Obj(m_ToVector=lambda: [t for t in line.replace('\t', ' ').split(' ') if t])
+            return NotImplemented
+        cbr = {'getline': getline, 'construct': construct, 'decl': rdecl, 'open': lambda *a: None, 'close': lambda *a: None, 'stream_fail': lambda st: False, 'stod': lambda t: D(val[t])}
+        exr = Exec({'filename': 'FILE'}, cbr, {}, None)
+        res = None
+        try:
+            exr.stmt(rvc.body_of(fr))
+        except Ret as e:
+            res = e.v
+        bad = ['shape'] if not (isinstance(res, Mx) and res.r == want.r and res.c == want.c) else [(i, j, str(res.g(i, j).v)) for i in range(want.r) for j in range(want.c) if not rvc.nf_zero(res.g(i, j).v - want.g(i, j).v)]
+        ob(obs, 'C08.imc.matrix/%s/roundtrip' % tag, 'imcio_write_matrix + imcio_read_matrix', 'the matrix read back is the matrix written (entry (i,j) for entry (i,j); with an index list: the selected sub-matrix in list order)', not bad,
+           'differing (i, j, read): %s' % bad[:5], bound=bound, fns=mfs, wit={'matrix': bound, 'differing': str(bad[:5])})
+    return obs
+
+
+def job_imc_index(seed):
+    """imcio_write_index against imcio_read_index: every (name, range) entry written comes back with the same name, in order, and the text handed to RangeParser::Parse is
+    the text RangeParser's operator<< produced (that print/parse pair itself is property C18).  Lines are concrete strings; a range prints as an opaque word."""
+    rvc.reset()
+    fns = rvc.functions(rvc.ast('csg/src/libcsg/imcio.cc', 'imcio_'))
+    for need in ('imcio_write_index', 'imcio_read_index'):
+        if need not in fns:
+            raise core.Undecided('front end: %s not found' % need)
+    fw, fr = fns['imcio_write_index'][0], fns['imcio_read_index'][0]
+    mfs = [{'name': 'imcio_write_index', 'file': 'csg/src/libcsg/imcio.cc', 'ast_nodes': rvc.node_count(fw)}, {'name': 'imcio_read_index', 'file': 'csg/src/libcsg/imcio.cc', 'ast_nodes': rvc.node_count(fr)}]
+    obs = []
+    NPOS_ = 1 << 62
+    class RP:
+        def __init__(s_, text=None): s_.text = text
+        def call(s_, name, args):
+            if name == 'Parse':
+                s_.text = args[0]; return None
+            raise rvc.Unsupported('RangeParser::' + name)
+        def clone(s_): return RP(s_.text)
+    for names in (('A-A',), ('A-A', 'B-B', 'A-B'), ('bond1', 'A-A')):
+        ranges = [{'first': nm, 'second': RP('%d:%d' % (10 * k + 1, 10 * k + 10))} for k, nm in enumerate(names)]
+        cur, closed = [], [False]
+        def wr(v):
+            if not closed[0]:
+                cur.append(v.text if isinstance(v, RP) else v)          # contract: operator<<(ostream, RangeParser) prints the range as one word without blanks (C18)
+        cb = {'ostream_write': wr, 'decl': lambda ex_, vd, ty, inner: ('ostream' if 'ofstream' in ty else NotImplemented), 'open': lambda *a: None, 'close': lambda *a: closed.__setitem__(0, True), 'stream_fail': lambda st: False, 'global': lambda nm: ('manip',)}
+        ex = Exec({'file': 'F', 'ranges': ranges}, cb, {}, None)
+        try:
+            ex.stmt(rvc.body_of(fw))
+        except Ret:
+            pass
+        lines, l = [], ''
+        for v in cur:
+            if v == 'ostream':
+                lines.append(l); l = ''
+            elif isinstance(v, str):
+                l += v
+        tag = 'n%d.%s' % (len(names), names[0])
+        bound = '%d entries' % len(names)
+        ok = lines == ['%s %s' % (r_['first'], r_['second'].text) for r_ in ranges]
+        ob(obs, 'C08.imc.index/%s/lines' % tag, 'imcio_write_index', 'one line per entry: the name, one blank, the range', ok, str(lines), bound=bound, fns=mfs)
+        if not ok:
+            continue
+        text = list(lines)
+        pos = [0]
+        def getline(stream, line):
+            if pos[0] >= len(text):
+                return False
+            line.set(text[pos[0]]); pos[0] += 1
+            return True
+        getline.by_ref = True
+        def find(a, x):
+            i = a.find(x)
+            return NPOS_ if i < 0 else i
+        def substr(a, i, n=None):
+            i = rvc._i(i)
+            if i == NPOS_ or i > len(a):
+                raise Thrown('std::out_of_range')
+            return a[i:] if (n is None or rvc._i(n) == NPOS_) else a[i:i + rvc._i(n)]
+        out = []
+        def rdecl(ex_, vd, ty, inner):
+            if 'ifstream' in ty:
+                return {'__class__': 'ifstream'}
+            if 'RangeParser' in ty and 'vector' not in ty:
+                return RP()
+            if 'vector<' in ty and 'pair' in ty:
+                return out
+            return NotImplemented
+        def construct(ex_, n, ty, args):
+            if 'pair<' in ty and len(args) == 2:
+                a = [rvc.rval(ex_.expr(x)) for x in args]
+                return {'first': a[0], 'second': a[1].clone() if isinstance(a[1], RP) else a[1]}
+            return NotImplemented
+        def trim(line):
+            line.set(rvc.rval(line).strip())
+        trim.by_ref = True
+        cbr = {'getline': getline, 'decl': rdecl, 'construct': construct, 'open': lambda *a: None, 'close': lambda *a: None, 'stream_fail': lambda st: False, 'find': find, 'substr': substr, 'trim': trim,
+               'global': lambda nm: NPOS_ if nm == 'npos' else (_ for _ in ()).throw(rvc.Unsupported('global ' + nm))}
+        exr = Exec({'filename': 'FILE'}, cbr, {}, None)
+        res, thrown = None, False
+        try:
+            exr.stmt(rvc.body_of(fr))
+        except Ret as e:
+            res = e.v
+        except Thrown:
+            thrown = True
+        got = [(e['first'], (e['second'].text or '').strip()) for e in (res or [])] if isinstance(res, list) else None
+        want = [(r_['first'], r_['second'].text) for r_ in ranges]
+        ob(obs, 'C08.imc.index/%s/roundtrip' % tag, 'imcio_write_index + imcio_read_index', 'the entries read back are the entries written: same names in the same order, and RangeParser::Parse receives (up to surrounding blanks) the text the range printed as', (not thrown) and got == want,
+           'thrown=%s got=%s' % (thrown, got), bound=bound, fns=mfs, wit={'written': str(want), 'read': str(got), 'thrown': thrown})
+    return obs
+
+
 def collect(obs):
     seen = set(f['name'] for f in META['functions'])
     for o in obs:
@@ -1116,7 +1293,7 @@ def collect(obs):
 
 
 def run(tier, seed, only=None):
-    jobs = [(job_gro_box, (seed,)), (job_lammps_box, (seed,)), (job_dlpoly_box, (seed,)), (job_lammps_atoms, (seed,)), (job_gro_atoms, (seed,)), (job_writer_units, (seed,)), (job_pdb_columns, (seed,)), (job_count, (seed,)), (job_table, (seed,)), (job_dlpoly_atoms, (seed,))]
+    jobs = [(job_gro_box, (seed,)), (job_lammps_box, (seed,)), (job_dlpoly_box, (seed,)), (job_lammps_atoms, (seed,)), (job_gro_atoms, (seed,)), (job_writer_units, (seed,)), (job_pdb_columns, (seed,)), (job_count, (seed,)), (job_table, (seed,)), (job_dlpoly_atoms, (seed,)), (job_imc_matrix, (seed,)), (job_imc_index, (seed,))]
     if only:
         jobs = [j for j in jobs if re.search(only, j[0].__name__)] or jobs
     obs = core.pmap(jobs)
